@@ -63,12 +63,13 @@ def run_templates(ctx, report):
     exprs, meta = [], []
     for table, (famf, runner, _) in TABLE_OF.items():
         fam = famf()
-        step = (3 if len(fam) > 50 else 1) if quick else 1
+        step = (4 if len(fam) > 50 else 2) if quick else 1
         off = r.randrange(step)
         for i, t in enumerate(fam):
             if (i + off) % step:
                 continue
-            vals = [A.gen_value(r, t, "max"), A.gen_value(r, t, "rand")]
+            vals = [A.gen_value(r, t, r.choice(["max", "rand"]))] if quick else \
+                [A.gen_value(r, t, "max"), A.gen_value(r, t, "rand")]
             ct = A.coq_ty(t)
             cells = [f"{runner} (snd (nth {i} {table} (TBool, SI 0))) {ct} {A.coq_val(t, v)}" for v in vals]
             if MODEL_CELLS and table in ("obs_enc_l_sto", "obs_enc_l_cd"):
@@ -89,8 +90,8 @@ def run_templates(ctx, report):
                    f"an OBSERVED encoder template ({table}: non-cancun-memory source), executed in Coq, does not satisfy the "
                    f"encoder spec / disagrees with the structural model SrcEnc.wenc",
                    {"table": table, "shape": A.eth_ty(t), "coq_type": A.coq_ty(t), "values": [repr(v) for v in vals],
-                    "results (1 ok, 0 wrong bytes/len/confinement or model mismatch, <0 evaluator; first 2 = spec, "
-                    "next 2 = model agreement where applicable)": o}, "tplxrun:" + table)
+                    "results (1 ok, 0 wrong bytes/len/confinement or model mismatch, <0 evaluator; first = spec, "
+                    "then model agreement where applicable)": o}, "tplxrun:" + table)
     ctx.corr["x_template_executions_in_coq"] = n
     ctx.corr["x_template_executions_per_table"] = per
     return n
